@@ -260,28 +260,10 @@ func vCheckJSON(c *JApiCore) {
 	vAssert(strings.Contains(j, "\"interactions\":{"), "c04-no-interactions-key")
 	vAssert(strings.HasSuffix(j, "\"jsight\":\"0.3\",\"jdocExchangeVersion\":\"2.0.0\"}"), "c04-version-keys")
 	cat := c.catalog
-	_ = cat.Interactions.Each(func(k catalog.InteractionID, v catalog.Interaction) error {
-		vAssert(strings.Contains(j, "\""+k.String()+"\":{\"id\":\""+k.String()+"\",\"protocol\":"), "c04-interaction-without-id-and-protocol")
-		return nil
-	})
-	_ = cat.Tags.Each(func(k catalog.TagName, t *catalog.Tag) error {
-		vAssert(strings.Contains(j, "\""+string(k)+"\":{\"name\":\""+string(k)+"\",\"title\":"), "c04-tag-without-name-and-title")
-		return nil
-	})
+	// (names are looked up in the PARSED document below: in the raw bytes encoding/json writes
+	// '&', '<', '>' of a path or a name as \u0026 …, so a textual search would demand the wrong thing)
 	vAssert(!strings.Contains(j, "\"interactionGroups\":null"), "c04-tag-without-interaction-groups-array")
 	vAssert(!strings.Contains(j, "\"body\":null"), "c04-response-without-body-object")
-	_ = cat.UserTypes.Each(func(k string, _ *catalog.UserType) error {
-		vAssert(strings.Contains(j, "\""+k+"\":{"), "c04-user-type-missing")
-		return nil
-	})
-	_ = cat.UserEnums.Each(func(k string, _ *catalog.UserRule) error {
-		vAssert(strings.Contains(j, "\""+k+"\":{"), "c04-user-enum-missing")
-		return nil
-	})
-	_ = cat.Servers.Each(func(k string, _ *catalog.Server) error {
-		vAssert(strings.Contains(j, "\""+k+"\":{"), "c04-server-missing")
-		return nil
-	})
 	// the JDoc Exchange 2.0.0 shape, walked on the parsed bytes (zz_verif_shape.go)
 	bad, _ := vShape(j)
 	vAssert(bad == "", "c04-jdoc-exchange-shape: "+bad)
@@ -294,6 +276,10 @@ func vCheckJSON(c *JApiCore) {
 		return nil
 	})
 	vAssert(len(top.get("interactions").keys) == cat.Interactions.Len(), "c04-interactions-invented")
+	_ = cat.Tags.Each(func(k catalog.TagName, _ *catalog.Tag) error {
+		vAssert(top.get("tags").get(string(k)) != nil, "c04-tag-missing-in-the-bytes")
+		return nil
+	})
 	_ = cat.UserTypes.Each(func(k string, _ *catalog.UserType) error {
 		vAssert(top.get("userTypes").get(k) != nil, "c04-user-type-missing-in-the-bytes")
 		return nil
